@@ -7,14 +7,14 @@ namespace CifModel.ReviewC11
 open CifModel Model.Dialect Spec.Dialect
 
 /-- a UTF-16LE file with BOM and a UTF-8 file with BOM holding the same text `#\#CIF_2.0 …`: all hypotheses of
-    `C11_same_text_any_signature`, and the theorem applied (with `parse := fun v _ => v`, i.e. what it really states: equal versions) -/
+    `C11_same_version_any_signature` (formerly `C11_same_text_any_signature`), and the theorem applied -/
 def h16 : Header := ⟨some .utf16le, false, false, none, false, .v2, true, false⟩
 def h8 : Header := ⟨some .utf8, false, true, some 10, true, .v2, true, false⟩
 
 example (prefer : Int) (cfg : Cfg) :
     (select prefer false cfg h16).version = (select prefer false cfg h8).version ∧
     (select prefer false cfg h16).bomDisallowed = (select prefer false cfg h8).bomDisallowed :=
-  C11_same_text_any_signature (fun v _ => v) [] prefer cfg h16 h8 .utf16le .utf8 rfl rfl rfl rfl rfl
+  C11_same_version_any_signature prefer cfg h16 h8 .utf16le .utf8 rfl rfl rfl rfl rfl
 
 /-- … while CIF_WRONG_ENCODING differs between the two (the property's "reported as CIF_WRONG_ENCODING") -/
 example : (select 0 false (treeCfg false true true) h16).wrongEncoding = true ∧
